@@ -169,6 +169,10 @@ class Oracle:
         self.span_list = None
         self.distinct = True
         self.k = -1
+        self.broken = False
+
+    def violate_obs(self, key, what):
+        self.violate(key, what)
 
     def violate(self, key, what):
         self.rep.violate(key, what, {'case': {**self.case, 'ops': self.case['ops'][:self.k + 1]}, 'at': self.k})
@@ -194,6 +198,15 @@ class Oracle:
         return ('pos', ps[0])
 
     def __call__(self, obj, item, before, out, exc, decl):
+        try:
+            self.observe(obj, item, before, out, exc, decl)
+        except Exception as e:  # noqa: BLE001  (reading the public state raised: that is itself reportable)
+            self.broken = True
+            self.violate_obs(f'observation-raised:{type(e).__name__}', f'observing the object after {item and item["op"]} raised {e!r}')
+
+    def observe(self, obj, item, before, out, exc, decl):
+        if self.broken:
+            return
         if item is None:
             self.span_list = list(obj.span)
             n = len(self.span_list)
@@ -336,7 +349,12 @@ def check_cases(ctx, rep, cases, partials):
     lines, impls, kept = [], [], []
     for case, partial in zip(cases, partials):
         orc = Oracle(rep, case, partial)
-        line, impl_out, obj = cc.run_case(case, observer=orc)
+        try:
+            line, impl_out, obj = cc.run_case(case, observer=orc)
+        except Exception as e:  # noqa: BLE001  (e.g. the constructor itself fails on the tree under test)
+            rep.violate(f'case-could-not-run:{type(e).__name__}', f'running the accesses raised outside any operation: {e!r}',
+                        {'case': case, 'at': -1})
+            continue
         for it, o in zip(case['ops'], impl_out):
             head = o.split('|')[0].split(':')[0]
             rep.dist[f'{it["op"]}:{head}'] += 1
